@@ -27,7 +27,7 @@ func init() {
 		Run:            run,
 		MinEvaluations: map[string]int{"quick": 100000, "thorough": 1000000},
 		MinNontrivial:  map[string]int{"quick": 1000, "thorough": 10000},
-		RequiredObs:    []string{"finds_that_compressed_paths", "ops:Union", "ops:UnionBuffered", "ops:Find", "ops:FindBuffered", "ops:view_on_the_live_value", "binomial_trees_under_every_labelling", "views_checked", "one_array:ops_followed_by_a_read_of_both_sets"},
+		RequiredObs:    []string{"finds_that_compressed_paths", "ops:Union", "ops:UnionBuffered", "ops:Find", "ops:FindBuffered", "ops:view_on_the_live_value", "binomial_trees_under_every_labelling", "views_checked", "view_results_appended_to_by_the_caller", "one_array:ops_followed_by_a_read_of_both_sets"},
 	})
 }
 
@@ -307,6 +307,16 @@ func (r *runner) checkViews(key string, detail interface{}, ds disjoint.Set, m m
 		c.Violation(key+"|Sets-changed-partition", detail, fmt.Sprintf("classes by Find after Sets: %v %v", after, pi), fmt.Sprint([]int(m)))
 		return false
 	}
+	// the lists of Sets are the caller's: appending to one of them changes neither another list nor the Set
+	c.Obs("view_results_appended_to_by_the_caller", 1)
+	if msg := engine.AppendTouchesOthers(sets); msg != "" {
+		c.Violation(key+"|Sets|lists-of-the-result-share-memory", detail, msg, "lists the caller may append to independently")
+		return false
+	}
+	if after, pi := partitionOf(c, key+"|read-after-append-to-Sets", cp); pi != nil || !eqInts(after, []int(m)) {
+		c.Violation(key+"|caller-appends-to-the-lists-of-Sets-and-the-Set-changes", detail, fmt.Sprintf("classes by Find afterwards: %v %v", after, pi), fmt.Sprint([]int(m)))
+		return false
+	}
 	cp = append(disjoint.Set(nil), ds...)
 	var sr []int
 	if pi := c.Call(key+"|SmallestRep", func() { sr = cp.SmallestRep() }); pi != nil {
@@ -322,6 +332,8 @@ func (r *runner) checkViews(key string, detail interface{}, ds disjoint.Set, m m
 		c.Violation(key+"|SmallestRep-changed-partition", detail, fmt.Sprintf("classes by Find after SmallestRep: %v %v", after, pi), fmt.Sprint([]int(m)))
 		return false
 	}
+	// ... also after the caller appended to the list it was given
+	_ = append(sr, -1, -1)
 	var sr2 []int
 	if pi := c.Call(key+"|SmallestRep-again", func() { sr2 = cp.SmallestRep() }); pi != nil || !eqInts(sr2, []int(m)) {
 		c.Violation(key+"|SmallestRep-second-call", detail, fmt.Sprint(sr2, pi), fmt.Sprint([]int(m)))
